@@ -25,7 +25,10 @@ BIAS = dict(p_weird_ids=0.15, p_multicount=0.08, n_test_faults=[0, 1, 2, 3, 4],
 
 
 def gen(seed):
-    return _ws.gen_ws(seed, ID, BIAS)
+    spec = _ws.gen_ws(seed, ID, BIAS)
+    if seed % 9 == 1:
+        _ws.add_binary_stdout_in_resumed_layers(spec, seed)
+    return spec
 
 
 def comparable(spec):
